@@ -456,11 +456,19 @@ Fixpoint fetch_all (c : cfg) (f : fspec) (n : nat) (w : world) (ids : list ident
     | (w', inr y) => fetch_all c f (S n) w' r (y :: acc)
     end
   end.
+(* list(store) raised: the objects created for the rows fetched so far are unreachable, the weak
+   object cache forgets them *)
+Definition gc (n : nat) (cl : client) : client :=
+  mkClient (firstn n (heap cl)) (revs cl) (filter (fun p => Nat.ltb (snd p) n) (cache cl)).
 Definition op_iter (c : cfg) (f : fspec) (w : world) : res :=
   let '(sv', nr) := send c f 0 (w_sv w) (mkReq GET (base_url c ++ "/_all_docs") None None) in
   match do_request GET nr with
   | inl e => (mkWorld sv' (w_cl w), OErr e, 1)
-  | inr (RData (PRows ids)) => fetch_all c f 1 (mkWorld sv' (w_cl w)) ids []
+  | inr (RData (PRows ids)) =>
+    match fetch_all c f 1 (mkWorld sv' (w_cl w)) ids [] with
+    | (w', OErr e, n) => (mkWorld (w_sv w') (gc (List.length (heap (w_cl w))) (w_cl w')), OErr e, n)
+    | r => r
+    end
   | inr _ => (mkWorld sv' (w_cl w), OErr XKey, 1)      (* data['rows'] *)
   end.
 
